@@ -184,6 +184,44 @@ func init() {
 				}
 				c.Add(map[string]any{"op": "rlp.roundtrip", "item": l, "rest": ""}, "tree.smalllist")
 			}
+			// 1c. shapes the recursive generator never reaches: wide and shallow (many sibling lists, the shape of an
+			// access list or of a block body), deep and narrow, and combs (a sibling list next to every level of nesting)
+			widths := []int{16, 31, 32, 33, 40, 64, 100, 255, 256, 300}
+			depths := []int{16, 31, 32, 33, 34, 48, 64, 65, 100, 128, 200}
+			if c.Thorough() {
+				widths = append(widths, 1000, 1024, 1025, 5000)
+				depths = append(depths, 256, 257, 500)
+			}
+			for _, w := range widths {
+				for variant := 0; variant < 3; variant++ {
+					l := make([]any, 0, w)
+					for q := 0; q < w; q++ {
+						switch variant {
+						case 0:
+							l = append(l, []any{}) // w empty lists
+						case 1:
+							l = append(l, []any{hx(r.Bytes(r.Intn(3))), []any{hx(r.Bytes(20))}}) // access-list-like entries
+						default:
+							if r.Bool() {
+								l = append(l, []any{hx(r.Bytes(r.Intn(4)))})
+							} else {
+								l = append(l, hx(r.Bytes(r.Intn(4))))
+							}
+						}
+					}
+					c.Add(map[string]any{"op": "rlp.roundtrip", "item": l, "rest": hx(r.Bytes(r.Intn(3)))}, "tree.wide")
+				}
+			}
+			for _, d := range depths {
+				var deep any = hx(r.Bytes(r.Intn(3)))
+				var comb any = []any{}
+				for q := 0; q < d; q++ {
+					deep = []any{deep}
+					comb = []any{[]any{}, comb, hx(r.Bytes(r.Intn(2)))}
+				}
+				c.Add(map[string]any{"op": "rlp.roundtrip", "item": deep, "rest": ""}, "tree.deep")
+				c.Add(map[string]any{"op": "rlp.roundtrip", "item": comb, "rest": ""}, "tree.comb")
+			}
 			// 2. exhaustive short byte strings
 			maxLen := 2
 			if c.Thorough() {
